@@ -29,7 +29,9 @@ TARGETS = ["x86_64-sysv", "aarch64", "riscv64"]
 CLANG_TRIPLE = {"x86_64-sysv": "x86_64-linux-gnu", "aarch64": "aarch64-linux-gnu", "riscv64": "riscv64-linux-gnu"}
 
 FID_AARCH64 = "aarch64-unnamed-bitfield-align"
-FID_UNION = "union-unnamed-bitfield-size"
+# "union-unnamed-bitfield-size" (`union {unsigned long :40; unsigned char m:1;}` had size 1) was repaired by /repo commit
+# b861666: its witnesses stay in CORPUS / corpus/C06/witnesses.json (run first, must match the ABI);
+# Props/C06.lean: layout_correct_union is unconditional.
 # "enum-fixed-unsigned-first-implicit" (`enum E : unsigned { A };` rejected) was repaired by /repo commit bb180d9:
 # its witness stays in ENUM_FIXED_WITNESS (run first, must be accepted); Props/C06.lean: enum_accepts is unconditional.
 
@@ -76,16 +78,15 @@ def t_align_hi(t):
     return a
 
 
-def has_unnamed_bf(t, nonzero_in_union=False):
+def has_unnamed_bf(t):
     if t[0] == "arr":
-        return has_unnamed_bf(t[1], nonzero_in_union)
+        return has_unnamed_bf(t[1])
     if t[0] != "su":
         return False
     for (n, ft, _, w) in t[3]:
         if w is not None and n is None:
-            if not nonzero_in_union or (t[1] and w > 0):
-                return True
-        if has_unnamed_bf(ft, nonzero_in_union):
+            return True
+        if has_unnamed_bf(ft):
             return True
     return False
 
@@ -209,6 +210,8 @@ def kinds_hist(t, h):
         for (n, ft, al, w) in t[3]:
             if w is not None:
                 bump(h, "bf:" + ("unnamed" if n is None else "named") + (":in-union" if t[1] else ""))
+                if n is None and w > 0 and t[1]:
+                    bump(h, "bf:unnamed-nonzero:in-union")
                 bump(h, "bfwidth:%02d" % w)
                 bump(h, "bfbase:" + ft[1])
             else:
@@ -662,7 +665,7 @@ CORPUS = [
     # DESIGN section 7 #16: AAPCS64 8/4, cproc 5/1
     ("aarch64-zero-width", ("su", False, False, [("c", I("char"), 0, None), (None, I("int"), 0, 0), ("d", I("char"), 0, None)])),
     ("aarch64-unnamed-3", ("su", False, False, [("c", I("char"), 0, None), (None, I("long"), 0, 3), ("d", I("char"), 0, None)])),
-    # #23: unnamed bit-fields never grow a union
+    # #23 (fixed by b861666): an unnamed bit-field of non-zero width occupies storage in a union
     ("union-unnamed-40", ("su", True, False, [(None, I("ulong"), 0, 40), ("m", I("uchar"), 0, 1)])),
     ("union-unnamed-plain", ("su", True, False, [(None, I("ulong"), 0, 40), ("m", I("uchar"), 0, None)])),
     # #22 (fixed by f8fc119): packed struct with an over-aligned member is rounded up
@@ -1019,7 +1022,7 @@ def unexplained(t, tg, res):
         if ev["kind"] in ("garbage", "rejected-valid"):
             return ev
         if ev["kind"] == "diff" and ev["vs_spec"] is not None:
-            known = ev["vs_model"] is None and ((tg == "aarch64" and has_unnamed_bf(t)) or has_unnamed_bf(t, nonzero_in_union=True))
+            known = (ev["vs_model"] is None and ev["vs_spec_x86rule"] is None and tg == "aarch64" and has_unnamed_bf(t))
             if not known:
                 return ev
     return None
@@ -1065,20 +1068,11 @@ def classify(ck, t, ev, program, cproc=None):
         replay["theorem"] = "CprocVerif.C06.layout_correct"
         ck.violation(replay, nofail=True)
         return
-    a = tg == "aarch64" and has_unnamed_bf(t)
-    u = has_unnamed_bf(t, nonzero_in_union=True)
-    if ev["vs_model"] is None and (a or u):
-        fids = []
-        if a and (not u or ev["vs_spec_x86rule"] is None):
-            fids = [FID_AARCH64]
-        elif u and not a:
-            fids = [FID_UNION]
-        else:
-            fids = [FID_AARCH64, FID_UNION]
-        for fid in fids:
-            what = ("-t aarch64: unnamed bit-fields do not contribute their type's alignment (AAPCS64): " if fid == FID_AARCH64
-                    else "unnamed bit-field does not grow a union: ") + ev["vs_spec"]
-            finding(ck, fid, dict(replay, what=what))
+    # the one recorded deviation: on aarch64 cproc lays out a type with unnamed bit-fields by the x86-64/RISC-V rule
+    # (exactly: it agrees with the model and with Spec/Abi for x86-64)
+    if tg == "aarch64" and has_unnamed_bf(t) and ev["vs_model"] is None and ev["vs_spec_x86rule"] is None:
+        finding(ck, FID_AARCH64, dict(replay, what="-t aarch64: unnamed bit-fields do not contribute their type's alignment "
+                                      "(AAPCS64): " + ev["vs_spec"]))
         return
     replay["what"] = "layout differs from the platform ABI: " + ev["vs_spec"]
     if cproc and len(ck.violations) < 2:
@@ -1108,7 +1102,7 @@ def ex_alphabet():
     return al
 
 
-def ex_type(seq, unnamed_mask=0):
+def ex_type(seq, unnamed_mask=0, is_union=False):
     fs = []
     for i, (k, b, w) in enumerate(seq):
         if k == "m":
@@ -1118,7 +1112,7 @@ def ex_type(seq, unnamed_mask=0):
             fs.append(("m%d" % i if named else None, ("sc", b), 0, w))
     if all(f[3] is not None and f[0] is None for f in fs):
         fs.append(("z", ("sc", "char"), 0, None))
-    return ("su", False, False, fs)
+    return ("su", is_union, False, fs)
 
 
 # ------------------------------------------------------------------ driver of the whole check
@@ -1185,7 +1179,8 @@ def run(ck):
                       "(drv_c06) and Spec/Abi; Spec/Abi validated on the same types against gcc (x86-64) and clang "
                       "--target (x86_64, aarch64, riscv64).  Exhaustive part: every sequence of <= %d members over "
                       "{bit-field (w, T): w in {0,1,7,8,9,15,16,17,31,32,33,63,64}, T in {char, short, int, long}, w <= 8*sizeof T} "
-                      "+ {char, int}.  Enums: generated enumerator lists around the int/unsigned/long boundaries with and "
+                      "+ {char, int}, as a struct; as a union (and as a struct with any subset of the bit-fields unnamed) up to "
+                      "one member less.  Enums: generated enumerator lists around the int/unsigned/long boundaries with and "
                       "without fixed underlying type.  distinct_nontrivial counts distinct type descriptions."
                       % (3 if ck.quick else 4))
     phase = ck.cov["phase_s"] = {}
@@ -1244,6 +1239,13 @@ def run(ck):
             for mask_bits in range(1, 1 << len(nb)):
                 mask = sum(1 << nb[j] for j in range(len(nb)) if (mask_bits >> j) & 1)
                 ex.append(ex_type(seq, mask))
+    # unions: every sequence of <= 2 (quick) / 3 (thorough) with every subset of the bit-fields unnamed
+    for ln in range(1, maxlen):
+        for seq in itertools.product(al, repeat=ln):
+            nb = [i for i, s in enumerate(seq) if s[0] == "b" and s[2] > 0]
+            for mask_bits in range(0, 1 << len(nb)):
+                mask = sum(1 << nb[j] for j in range(len(nb)) if (mask_bits >> j) & 1)
+                ex.append(ex_type(seq, mask, is_union=True))
     for t in ex:
         ck.count(key64(drv_type(t)))
     if not ck.violations:
@@ -1279,8 +1281,8 @@ META = {
     "category": "proof",
     "text": ("Lean 4 theorems over a transliteration of decl.c:addmember/tagspec (64-bit wrap-around arithmetic, the "
              "ALIGNUP/ALIGNDOWN mask macros, error branches as Except): for every well-formed member list the model yields "
-             "exactly the bit-cursor layout of Spec/Abi.lean (layout_correct; unions and AAPCS64 with the stated exclusions, "
-             "their full statements refuted by concrete witnesses), and for every accepted list: members do not overlap, are "
+             "exactly the bit-cursor layout of Spec/Abi.lean (layout_correct, layout_correct_union; AAPCS64 with the stated "
+             "exclusion, its full statement refuted by a concrete witness), and for every accepted list: members do not overlap, are "
              "aligned, every bit-field's storage unit lies inside the object, before+width+after = 8*sizeof T, sizeof is a "
              "multiple of _Alignof, union members sit at offset 0, and tagspec accepts an enum exactly when the C23/GCC "
              "rule gives it a type, with that type, which represents every enumerator (enum_underlying_iff).  Tied to /repo on every run by compiling generated types for all three targets "
